@@ -218,6 +218,19 @@ def run(ctx):
                           {"a": "par", "par": [rd(2, 110), rd(4, 300), rd(2, 500),
                                                {"a": "seq", "rep": 1, "seq": [{"a": "wait", "ms": rng.choice([1, 3, 6])}, {"a": "close"}]}]},
                           {"a": "sloww", "ms": 0}, {"a": "wait", "ms": 3}]})
+    # Close called twice while a loop is inside a slow RTCP write: EVERY Close returns only after the goroutines have finished
+    # (strict census 2 ms after the last one)
+    for kinds in (["rsend"], ["rrecv"], ["nackgen"], ["pli"], ["twccsend"], ["rfc8888"], ["rsend", "rrecv", "nackgen", "pli"]):
+        for _ in range(1 if ctx.quick else 5):
+            racing.append({
+                "members": [{"k": k, "o": {"ivl": 1, "size": 64}} for k in kinds], "watch": 4000, "settle": 2, "strict": True,
+                "steps": [{"a": "bindw"}, {"a": "bindr"}, {"a": "bindl", "s": 1, "nack": True, "twcc": 0, "rtx": False, "fec": False},
+                          {"a": "bindm", "s": 2, "nack": True, "twcc": 7, "pli": True},
+                          {"a": "wrtp", "s": 1, "w": 10, "id": 1, "len": 20, "shape": 0, "fail": False},
+                          {"a": "rrtp", "s": 2, "w": 100, "id": 1, "len": 30, "shape": 0, "tw": 100, "fail": False},
+                          {"a": "rrtp", "s": 2, "w": 103, "id": 2, "len": 30, "shape": 0, "tw": 103, "fail": False},
+                          {"a": "sloww", "ms": rng.choice([25, 40])}, {"a": "wait", "ms": 6},
+                          {"a": "close"}, {"a": "close"}]})
     for i in range(0, len(racing), 60):
         vlib.run_batch(ctx, tag="G-close-racing-%d" % (i // 60), scripts=racing[i:i + 60], pkg_rel="", pkgname="interceptor_test",
                        files=["zz_verif_univ_test.go", "common:zz_verif_pkt_test.go.tpl"], test="TestVerifUnivExec",
